@@ -1812,15 +1812,15 @@ func TestNumeric(t *testing.T) {
 	phase("corpus")
 
 	// ---- (1) the exhaustive decimal grid, by digest, in parallel
-	// quick: every k up to 2*10^5, both signs through the model. thorough: both signs through the model up to 2*10^6;
-	// the positive half through the model and the negative half through the proved sign symmetry up to 6*10^6; from
+	// quick: every k up to 2*10^5, both signs through the model. thorough: both signs through the model up to 10^6;
+	// the positive half through the model and the negative half through the proved sign symmetry up to 5*10^6; from
 	// there to 2*10^7 one block of 10^4 consecutive k in seven (the conversion is a function of k's digits and of the
-	// binade of k*10^-d: nothing changes between 6*10^6 and 2*10^7 that the blocks, the random decimals up to 2^50 and
-	// the directed search would not meet). Beyond 2*10^6 the model's digest is computed without the run-time
+	// binade of k*10^-d: nothing changes between 5*10^6 and 2*10^7 that the blocks, the random decimals up to 2^50 and
+	// the directed search would not meet). Beyond 10^6 the model's digest is computed without the run-time
 	// assertion of IsRnd (a theorem, asserted on all the rest).
 	K := int64(h.Scale(200000, 20000000))
-	direct := int64(h.Scale(200000, 2000000)) // both signs through the driver up to here, mirrored beyond
-	denseK := int64(h.Scale(200000, 6000000)) // every k up to here, blocks beyond
+	direct := int64(h.Scale(200000, 1000000)) // both signs through the driver up to here, mirrored beyond
+	denseK := int64(h.Scale(200000, 5000000)) // every k up to here, blocks beyond
 	const chunk = 10000
 	var chunks []numChunk
 	for dd := 0; dd <= 4; dd++ {
